@@ -67,10 +67,12 @@ def r2(ctx):
     sizes = bf.term(split[0].node.args[1]) if len(split[0].node.args) > 1 else None
     ok = isinstance(sizes, Comp) and not sizes.conds
     if ok:
-        series = Idx(App("builtins.list", (Sym("data_series"),)), (sizes.var,))
-        wants = [tm.add(tm.add(App("len", (series,)), tm.neg(Sym("window_size"))), 1),
-                 tm.add(tm.add(Idx(Attr(series, "shape"), (tm.ZERO,)), tm.neg(Sym("window_size"))), 1)]
-        ok = sizes.elt in wants and sizes.iter == Range(0, tm.length(App("builtins.list", (Sym("data_series"),))))
+        ok = False
+        for cont in (App("builtins.list", (Sym("data_series"),)), Sym("data_series")):
+            series = Idx(cont, (sizes.var,))
+            wants = [tm.add(tm.add(App("len", (series,)), tm.neg(Sym("window_size"))), 1),
+                     tm.add(tm.add(Idx(Attr(series, "shape"), (tm.ZERO,)), tm.neg(Sym("window_size"))), 1)]
+            ok = ok or (sizes.elt in wants and sizes.iter == Range(0, tm.length(cont)))
     # composition: (T - W + 1) stacked rows + (W - 1) markers = T labels per series
     T_, W_ = Sym("T"), Sym("W")
     total = tm.add(tm.add(tm.add(T_, tm.neg(W_)), 1), tm.add(W_, -1))
